@@ -32,7 +32,8 @@ CLAIMED["C01"] = dict(
         "in Coq on the implementation's own outcome by exhaustive re-enumeration.",
    note="Trusted: Coq kernel + vm_compute; hand-written model (sampled correspondence); scipy chi2/kruskal "
         "assumed monotone images of the exact values (1e-9 tie tolerance); continuous targets integer-valued; "
-        "pandas sort of <=16 rows stable. No axioms.",
+        "pandas sort_values of exactly tied rates is NOT stable on this hardware (numpy quicksort, AVX-512): a candidate "
+        "whose rank test hinges on an exact tie makes the case tie-dependent (verdict 4). No axioms.",
    technique="Coq proof (enumeration completeness by induction, argmax of first-viable in sorted list) + model/implementation correspondence by vm_compute",
    design="5/C01")
 CLAIMED["C02"] = dict(
